@@ -108,6 +108,45 @@ def run_scenario(sc, root, bindir, focus):
     return {'sc': dict(sc, j=0, inherit=False), 'dir': d, 'trace': trace, 'problems': problems, 'cmds': cmds, 'census': census}
 
 
+def history_runs(tier, root, bindir, n_per_prog=6):
+    """a second source of recorded executions: TLC-generated user-level histories of the RedoSys program families
+    (overrides, static sources, missing rules, ifcreate, always, checksums, failures, -j2 trees) executed with tracing;
+    what they do between the commands is validated like the stress scenarios"""
+    import harness
+    import histories
+    import programs
+    fam = programs.parallel_family() + [programs.complete(f()) for f in (programs.roles, programs.failing, programs.ifcreate_prog,
+                                                                          programs.always_prog, programs.stamped_mid2, programs.subdirs)]
+    out = []
+    rnd = random.Random(common.seed() + 77)
+    for prog in fam:
+        d = os.path.join(root, 'hist_' + prog['name'])
+        os.makedirs(d, exist_ok=True)
+        mh, mcm = prog.get('bounds', (4, 3))
+        res, hs = histories.gen_histories(prog, d, max_hist=min(mh, 4), max_cmds=min(mcm, 3), invariants=[], workers=4, timeout=900)
+        if res.error or res.violated:
+            continue
+        groups = histories.group_histories(hs)
+        keys = sorted((k for k in groups if histories.interesting(k, 2)), key=repr)
+        rnd.shuffle(keys)
+        for i, k in enumerate(keys[:n_per_prog if tier == 'quick' else 4 * n_per_prog]):
+            rd = os.path.join(d, 'h%03d' % i)
+            trace = os.path.join(d, 'h%03d.ndjson' % i)
+            if os.path.exists(trace):
+                os.unlink(trace)
+            ok, rep = harness.replay_group(prog, groups[k], rd, bindir, trace=trace, log_mode='0', jitter=True)
+            census = None
+            dbp = os.path.join(rd, 'p', '.redo', 'db.sqlite3')
+            if os.path.exists(dbp):
+                rows, edges, integ = tracecheck.read_census(dbp)
+                census = (rows, edges)
+            with open(os.path.join(rd, 'scenario.json') if os.path.isdir(rd) else trace + '.json', 'w') as f:
+                json.dump({'program': prog['name'], 'history_input': [list(x) for x in k]}, f, default=list)
+            out.append({'sc': {'id': 'hist:%s:%d' % (prog['name'], i), 'j': 0, 'inherit': False, 'history': [list(x) for x in k]},
+                        'dir': rd, 'trace': trace, 'problems': [], 'cmds': [], 'census': census})
+    return out
+
+
 def validate(results, root, module, project, invariants):
     """one TLC run over the concatenation of all scenarios' projections; violations are attributed to their scenario"""
     segs = []
@@ -150,13 +189,15 @@ def run_check(pid, tier, focus, verdict):
     scs = scenario_list(tier, common.seed(), focus)
     with ThreadPoolExecutor(4) as ex:
         results = list(ex.map(lambda sc: run_scenario(sc, root, bindir, focus), scs))
+    hist = history_runs(tier, root, bindir)
+    results += hist
     n_unl = 0
     for r in results:
         try:
             n_unl += sum(1 for ln in open(r['trace']) if '"ev":"ProcStart"' in ln and '"unlocked":"1"' in ln)
         except OSError:
             pass
-    cov = {'redo_unlocked_delegates_observed': n_unl, 'concurrent_scenarios': len(results), 'real_commands': sum(len(r['cmds']) for r in results),
+    cov = {'history_driven_executions': len(hist), 'redo_unlocked_delegates_observed': n_unl, 'concurrent_scenarios': len(results) - len(hist), 'real_commands': sum(len(r['cmds']) for r in results),
            'fresh_state_dirs': sum(1 for s in scs if s['fresh']), 'seed': common.seed()}
     other = 0
     for r in results:
